@@ -71,3 +71,6 @@ def run(ctx):
     from ..engines import equivrules as QE
     QE.k16_connect_cycles(ctx)
     ctx.floor("K16", 3)
+    from ..engines import forestrules as FE
+    FE.e13_reverse_switch_read_live(ctx)
+    ctx.floor("E13", 2)
